@@ -12,7 +12,8 @@ from drive import Result
 RULE = ("Hypothesis generates models with N<=4 modes (quick; <=5 thorough) incl. non-interacting, atomic-limit and particle-hole "
         "symmetric families, beta in [0.1,100], an index quadruple (equal and distinct indices) and Matsubara triples from a mixture "
         "forcing n1=n3, n2=n3, n1+n2=-1 and generic ones.  pomerol's chi_ijkl (on-demand evaluation of a stand-alone TwoParticleGF, "
-        "frequency tables with clear=false and clear=true, default compute(), empty frequency list) is compared with an independent "
+        "frequency tables with clear=false and clear=true, default compute(), empty frequency list, and the TwoParticleGFContainer "
+        "filled with an exchange partner so that the component is served as an alias) is compared with an independent "
         "evaluation of the time-ordered triple integral (6 orderings x divided differences of exp over the simplex, confluent nodes "
         "for coinciding levels / vanishing bosonic frequency) and the tables with on-demand values.  Non-trivial: the component has a "
         "non-zero chain and (a coinciding-frequency family is present, or >=3 distinct indices, or complex build).")
@@ -74,6 +75,13 @@ def execute(case, ctx):
         q.append((("Ye", c), "chieval Y%d mats 1 0 0 0" % c))
         q.append((("Z", c), "chi Z%d sa %s clear 0 %s" % (c, ids, "table 0" if case["empty_table"] else "default")))
         q.append((("Ze", c), "chieval Z%d %s" % (c, mats)))
+        # third access path: the container, filled with an exchange partner of the component so that the component itself is
+        # served as an alias (permuted frequencies, sign) whenever it differs from the partner
+        partner = [(j, i, l, k), (j, i, k, l), (i, j, l, k), (i, j, k, l)][c % 4]
+        q.append((("Cn", c), "c4 new"))
+        q.append((("Cp", c), "c4 prepareAll 1 %d %d %d %d" % partner))
+        q.append((("Cc", c), "c4 computeAll %d 0 0" % (c % 2)))
+        q.append((("Ce", c), "c4 eval %s %d %s" % (ids, len(triples), " ".join("%d %d %d" % t for t in triples))))
     run = ModelRun(ctx, mdl, q)
     classes = model_classes(mdl)
     g = pipeline_guard(run, classes, run.qlines["ops"])
@@ -132,6 +140,12 @@ def execute(case, ctx):
                             "mismatch-ref", {"triple": [n1, n2, n3]})
             if not abs(odZ[t] - v) <= 1e-12 * (abs(v) + 1e-3 * S) + fl:
                 return fail("two objects for the same component disagree: %r vs %r" % (odZ[t], v), "mismatch-objects")
+            cv = run.q(("Ce", c))["v"][t]
+            if not isinstance(cv, list):
+                return fail("the container could not evaluate chi_%d%d%d%d after prepareAll/computeAll of its exchange partner: %s" % (i, j, k, l, cv.get("exc")), "exc:container")
+            if not abs(cx(cv) - r) <= tol:
+                return fail("chi_%d%d%d%d(%d,%d,%d) read through the container (alias of an exchange partner) = %r, reference %r, |diff| %.3e > tol %.3e" % (
+                    i, j, k, l, n1, n2, n3, cx(cv), r, abs(cx(cv) - r), tol), "mismatch-container")
             if tX:
                 if not abs(tX[t] - v) <= 1e-12 * (abs(v) + 1e-3 * S) + fl:
                     return fail("table(clear=false)[%d] = %r but on-demand %r" % (t, tX[t], v), "mismatch-table")
